@@ -503,9 +503,13 @@ class ValueMapping:
             if i == 0:
                 lo = cimtype.minvalue
             else:
-                _, previous_hi, _ = self._values_tuple(
-                    i - 1, valuemap_list, values_list, cimtype)
-                lo = previous_hi + 1
+                previous_hi = self._explicit_end(valuemap_list[i - 1], 2)
+                if previous_hi is None:
+                    # The previous entry has no high end either (open range
+                    # or unclaimed marker), so the type limit applies
+                    lo = cimtype.minvalue
+                else:
+                    lo = previous_hi + 1
         else:
             lo = self._to_int(lo)
 
@@ -514,12 +518,35 @@ class ValueMapping:
             if i == len(valuemap_list) - 1:
                 hi = cimtype.maxvalue
             else:
-                next_lo, _, _ = self._values_tuple(
-                    i + 1, valuemap_list, values_list, cimtype)
-                hi = next_lo - 1
+                next_lo = self._explicit_end(valuemap_list[i + 1], 1)
+                if next_lo is None:
+                    # The next entry has no low end either (open range or
+                    # unclaimed marker), so the type limit applies
+                    hi = cimtype.maxvalue
+                else:
+                    hi = next_lo - 1
         else:
             hi = self._to_int(hi)
         return (lo, hi, values_str)
+
+    def _explicit_end(self, valuemap_str, group):
+        """
+        Return the low end (group=1) or high end (group=2) of a `ValueMap`
+        entry as an integer, or `None` if the entry does not specify that end
+        (open value range or unclaimed marker). For a single value, both ends
+        are that value.
+
+        Raises:
+
+            ModelError: Invalid integer representation in the entry.
+        """
+        m = re.match(r'^(.*)\.\.(.*)$', valuemap_str)
+        if m is None:
+            return self._to_int(valuemap_str)
+        end_str = m.group(group)
+        if end_str == '':
+            return None
+        return self._to_int(end_str)
 
     def _to_int(self, val_str):
         """
